@@ -446,6 +446,11 @@ func (ex *Ex) enqueue(c *Conn, p *refcodec.Packet, op int, enc refcodec.EncOpts,
 		ver = c.Ver
 	}
 	c.pending = append(c.pending, &pendingPkt{pkt: p, data: refcodec.Encode(p, ver, enc), op: op})
+	switch p.Type {
+	case refcodec.PUBACK, refcodec.PUBREC, refcodec.PUBREL, refcodec.PUBCOMP:
+		// the instant the simulated client hands an acknowledgement to its network stack
+		ex.H.add(&Ev{Kind: "cack", Conn: c.Idx, Pkt: p, Op: op, hasOp: true})
+	}
 }
 
 // react implements the client's acknowledgement policy.
